@@ -48,6 +48,7 @@ class Verifier(Exec):
         self.specfun_axioms = set()
         self.pending_specfun = []
         self.unfolding = 0
+        self.defers = []
         self.loop_pcs = []
         self.sf_fields = {}
         self.sf_heaps = {}
@@ -734,6 +735,11 @@ class Verifier(Exec):
             return v
         raise Unsupported('unop ' + op)
 
+    def void_tid(self):
+        if '()' not in self.prog.types:
+            self.prog.types['()'] = {'kind': 'tuple', 'elems': []}
+        return '()'
+
     def regprefix(self, ins):
         return '%s' % ins.get('name', 'v')
 
@@ -1091,7 +1097,9 @@ class Verifier(Exec):
             self.havoc_regions(st, regs, 'call')
         # result
         rt = ins['type']
-        if self.kind(rt) == 'tuple':
+        if self.kind(rt) == 'tuple' and not self.U(rt)['elems']:
+            res = None
+        elif self.kind(rt) == 'tuple':
             res = self.fresh_value('r:' + short_fn(callee), rt, True, None)
         elif rtypes:
             res = self.fresh_value('r:' + short_fn(callee), rt, True, None)
@@ -1232,6 +1240,11 @@ class Verifier(Exec):
                     c = forall([k], implies(and_(le(r[3], k), lt(k, r[4])), self.region_contains_elem(frame, r[1], r[2], k)))
                 elif r[0] == 'obj':
                     c = self.region_contains_obj(frame, r[1], r[2], r[3])
+                elif r[0] == 'objs':
+                    c = or_(*([and_(eq(r[2], f[2]), le(f[3], r[3]), le(r[4], f[4])) for f in frame if f[0] == 'objs' and f[1] == r[1]]
+                              + [ge(self.root_of(r[2]), f[1]) for f in frame if f[0] == 'fresh'] + [le(r[4], r[3])] + [TRUE for f in frame if f[0] == 'any']))
+                elif r[0] == 'map':
+                    c = or_(*([eq(r[1], f[1]) for f in frame if f[0] == 'map'] + [ge(r[1], f[1]) for f in frame if f[0] == 'fresh'] + [TRUE for f in frame if f[0] == 'any']))
                 else:
                     c = B(any(f[0] == 'any' for f in frame))
                 self.oblige(st, kind, 'call:' + self.cur_detail, c)
@@ -1652,8 +1665,18 @@ class Verifier(Exec):
         elif op == 'Range' or op == 'Next':
             r = self.do_range(st, ins)
         elif op == 'RunDefers':
+            # deferred calls recorded so far run in reverse order (a defer inside a branch is run on every path
+            # that reaches the function exit: an over-approximation, listed in the notes)
+            for dins in reversed(self.defers):
+                self.cur_detail = 'defer'
+                self.do_call(st, dins)
             return
-        elif op == 'Defer' or op == 'Go' or op == 'Select' or op == 'Send' or op == 'MakeChan':
+        elif op == 'Defer':
+            self.defers.append({'op': 'Call', 'call': ins['call'], 'type': self.void_tid(), 'line': ins.get('line'), 'name': ''})
+            if len(self.defers) > 1 or blk['index'] != 0:
+                self.ctx.notes.append('%s: deferred calls are run on every exit path' % short_fn(self.fname))
+            return
+        elif op == 'Go' or op == 'Select' or op == 'Send' or op == 'MakeChan':
             r = self.do_effect(st, ins)
         elif op == 'SliceToArrayPointer' or op == 'MultiConvert':
             raise Unsupported(op)
